@@ -117,6 +117,14 @@ func (annotStream) Generate(rng *rand.Rand, tier string, emit func(Case)) {
 	}
 	emit(Case{"op": "key", "plugin": hx(""), "dev": hx("x")})
 	emit(Case{"op": "key", "plugin": hx("x"), "dev": hx("")})
+	// keys at the boundary of the CDI prefix: the prefix without its slash, the bare prefix, near misses
+	for _, key := range []string{"cdi.k8s.io", "cdi.k8s.io/", "cdi.k8s.i", "cdi.k8s.io.example.com/x", "example.com/cdi.k8s.io", "CDI.k8s.io/x",
+		"cdi.k8s.io//x", " cdi.k8s.io/x", "", "cdi.k8s.io/x/y", "cdi_k8s_io/x", "cdi.k8s.io\x00/x"} {
+		for _, val := range []string{"a.com/b=c", "unqualified", "", "a.com/b=c,d.org/e=f"} {
+			emit(Case{"op": "parse", "entries": mapToProto(map[string]string{key: val})})
+			emit(Case{"op": "parse", "entries": mapToProto(map[string]string{key: val, "cdi.k8s.io/plugin_dev": "v.com/k=n"})})
+		}
+	}
 	for i := 0; i < n; i++ {
 		plugin := genKeyPart(rng, 1+rng.Intn(8))
 		dev := genKeyPart(rng, 1+rng.Intn(8))
